@@ -7,7 +7,7 @@ TRUSTED_BASE = [
     "axioms: at most propext, Classical.choice, Quot.sound (audited per theorem with #print axioms on every run); no sorry/admit/native_decide/bv_decide/own axioms (grep on every run)",
     "Mathlib v4.33.0 modules imported by proof files only (Mathlib.Logic.Relation and single tactic/list modules); model files are import-free",
     "the hand-written Lean model of the Rust code (lean/OHVerif/Model) - tied to /repo only by the differential correspondence check run on every invocation",
-    "the correspondence check itself: Rust harness generators and replay mode, the wire encoding/decoding on both sides, catch_unwind, the dispatch of ops to relations in lean/OHVerif/Model/Driver*.lean, and this Python driver; the comparison relations themselves are NOT trusted: each comparator/oracle is proved to decide its specification relation (Props/Comparators, IsoCert, LaxDenote, C15Oracle, Oracles: soundness and, where stated, completeness), except the history comparator runHistoryRen (C09/C11 histories up to the renumbering returned by quotient steps) and the C16 interpreter-log multiset, which are small Boolean functions read by eye (the C13 witness criteria are reflected to Props and shown to accept the model's answer in Props/C13Oracle)",
+    "the correspondence check itself: Rust harness generators and replay mode, the wire encoding/decoding on both sides, catch_unwind, the dispatch of ops to relations in lean/OHVerif/Model/Driver*.lean, and this Python driver; the comparison relations themselves are NOT trusted: each comparator/oracle is proved to decide its specification relation (Props/Comparators, IsoCert, LaxDenote, C15Oracle, Oracles: soundness and, where stated, completeness), except the history comparator runHistoryRen (C09/C11 histories up to the renumbering returned by quotient steps), a small Boolean function read by eye (the C13 witness criteria and the C16 interpreter-log comparison are reflected to Props and shown to accept the model's answer in Props/C13Oracle and Props/C16Oracle)",
     "rustc/cargo; usize modelled as unbounded Nat (no overflow above 2^64); Clone/PartialEq on labels as Lean equality",
     "modelled, not verified: std's HashMap and sort; the Rust union-find (rank, path compression, HashMap renumbering) and HashMap sparse_bincount have a line-by-line model proved equal to the canonical-output algorithms the other theorems use (Props/C07UnionFind)",
     "serde/serde_json (C11's JSON clause): the documented text is a model function proved lossless (Props/C11Json); that the derives print it is compared on every case",
@@ -36,7 +36,7 @@ READY = {
     "OHVerif.Props.C12Subst", "OHVerif.Props.C13Native", "OHVerif.Props.C19Sem", "OHVerif.Props.C14Deriv",
     "OHVerif.Props.C14Poly", "OHVerif.Props.C07UnionFind", "OHVerif.Props.IsoCert",
     "OHVerif.Props.C11Json", "OHVerif.Props.C08Iter", "OHVerif.Props.Comparators",
-    "OHVerif.Props.LaxDenote", "OHVerif.Props.C15Oracle", "OHVerif.Props.Oracles", "OHVerif.Props.C13Oracle",
+    "OHVerif.Props.LaxDenote", "OHVerif.Props.C15Oracle", "OHVerif.Props.Oracles", "OHVerif.Props.C13Oracle", "OHVerif.Props.C16Oracle",
 }
 
 def _mods(*names):
@@ -63,7 +63,7 @@ PROPS = {
     "C13": dict(modules=_mods("OHVerif.Props.C13", "OHVerif.Props.C13Native", "OHVerif.Props.IsoCert", "OHVerif.Props.LaxDenote", "OHVerif.Props.C13Oracle"), groups=[("dynfunctor", 2500)], deps=[("lax.cat", 400)]),
     "C14": dict(modules=_mods("OHVerif.Props.C14", "OHVerif.Props.C14Optic", "OHVerif.Props.C14Deriv", "OHVerif.Props.C14Poly"), groups=[("optic", 1500)], deps=[("dynfunctor", 300), ("eval", 300)]),
     "C15": dict(modules=_mods("OHVerif.Props.C15", "OHVerif.Lemmas.Kahn", "OHVerif.Props.C15Oracle"), groups=[("graph", 3000)], deps=[("ic", 400), ("prim", 300)]),
-    "C16": dict(modules=_mods("OHVerif.Props.C16"), groups=[("eval", 3000)], deps=[("graph", 600)]),
+    "C16": dict(modules=_mods("OHVerif.Props.C16", "OHVerif.Props.C16Oracle"), groups=[("eval", 3000)], deps=[("graph", 600)]),
     "C17": dict(modules=_mods("OHVerif.Props.C17"), groups=[("oh", 2000), ("hg", 1500), ("graph", 800)], deps=[("prim", 300)], release=True),
     "C18": dict(modules=_mods("OHVerif.Props.C18", "OHVerif.Props.Oracles"), groups=[("graph", 3000)], deps=[("ic", 300)]),
     "C19": dict(modules=_mods("OHVerif.Props.C19", "OHVerif.Props.C19Build", "OHVerif.Props.C19Sem"), groups=[("var", 2500)], deps=[("dynfunctor", 300), ("lax.edit", 300)]),
